@@ -30,6 +30,12 @@ What the primitives stand for (Python side, see the extractor for the exact synt
 * `tryCatch b h`   `try: b  except xml.dom.DOMException: h`
 * `tryFinally b f` `try: b  finally: f`
 * `scope b`     an inlined call of another method on `self` (`return` inside ends the call only)
+* `call f`      a public mutator of the *child object* held in field `f` (or of an element of the child collection
+                held there) is called on new content: `self.f.cssText = x`, `self.f.appendSelector(x)` where the
+                class of the child is not known to the extractor. What the call does is decided by a **handler**:
+                the modular semantics `run` uses the contract "raises with the child unchanged, or changes the
+                child" (`Handler.shallow`); the ownership-tree semantics (`Model/MutatorTree.lean`) really runs a
+                script of the child and reports what happened — including "raised *and* changed the child"
 * `mark n`      trace event: the Python statement at line id `n` was started (used by the correspondence)
 -/
 namespace CssVerif.Mutators
@@ -61,6 +67,7 @@ inductive Stmt where
   | tryCatch (body handler : Stmt)
   | tryFinally (body fin : Stmt)
   | scope (body : Stmt)
+  | call (f : Field)
   deriving Repr, DecidableEq, Inhabited
 
 /-- `seqs [a, b, c] = seq a (seq b c)` (generated scripts use this to stay flat) -/
@@ -127,9 +134,29 @@ structure Res where
   st : St
   os : Outcomes
 
-/-- The interpreter. `fuel` bounds the number of loop iterations + nesting; every finite execution is
-covered by some fuel, and the theorems hold for all fuel. -/
-def run (fuel : Nat) (sc : Stmt) (st : St) (os : Outcomes) : Res :=
+/-- What a call of a mutator of the child object held in a field reports back to the calling script. -/
+structure CallRes where
+  raised : Bool     -- the child's mutator ended with a DOM exception
+  changed : Bool    -- some observable field of the child no longer holds the value it had before the call
+  stuck : Bool      -- the interpreter ran out of fuel / ownership depth inside the child (never a verdict)
+  os : Outcomes     -- outcomes left
+
+/-- How child calls are answered: fuel, field, the version the field holds (it identifies the child), outcomes. -/
+abbrev Handler := Nat → Field → Nat → Outcomes → CallRes
+
+/-- The contract the modular (one object at a time) semantics assumes of every child mutator: it either raises
+with the child unchanged or changes the child; which of the two is decided by the outcome sequence. -/
+def Handler.shallow : Handler := fun _ _ _ os =>
+  let o := nextOutcome os
+  ⟨o.1, !o.1, false, o.2⟩
+
+/-- a handler is *atomic* if a call that raises never reports a changed child -/
+def Handler.Atomic (h : Handler) : Prop :=
+  ∀ fuel f v os, (h fuel f v os).raised = true → (h fuel f v os).changed = false
+
+/-- The interpreter, generic in the handler that answers child calls. `fuel` bounds the number of loop
+iterations + nesting; every finite execution is covered by some fuel, and the theorems hold for all fuel. -/
+def runG (H : Handler) (fuel : Nat) (sc : Stmt) (st : St) (os : Outcomes) : Res :=
   match fuel with
   | 0 => ⟨.stuck, st, os⟩
   | fuel + 1 =>
@@ -154,45 +181,55 @@ def run (fuel : Nat) (sc : Stmt) (st : St) (os : Outcomes) : Res :=
     | .havoc b =>
       let o := nextOutcome os
       ⟨.norm, st.setFlag b o.1, o.2⟩
-    | .ifFlag b t e => if st.flags b then run fuel t st os else run fuel e st os
+    | .ifFlag b t e => if st.flags b then runG H fuel t st os else runG H fuel e st os
     | .seq a b =>
-      let r := run fuel a st os
+      let r := runG H fuel a st os
       match r.exit with
-      | .norm => run fuel b r.st r.os
+      | .norm => runG H fuel b r.st r.os
       | _ => r
     | .choice a b =>
       let o := nextOutcome os
-      if o.1 then run fuel a st o.2 else run fuel b st o.2
+      if o.1 then runG H fuel a st o.2 else runG H fuel b st o.2
     | .loop body els =>
       let o := nextOutcome os
       if o.1 then
-        let r := run fuel body st o.2
+        let r := runG H fuel body st o.2
         match r.exit with
-        | .norm => run fuel (.loop body els) r.st r.os
-        | .cont => run fuel (.loop body els) r.st r.os
+        | .norm => runG H fuel (.loop body els) r.st r.os
+        | .cont => runG H fuel (.loop body els) r.st r.os
         | .brk => ⟨.norm, r.st, r.os⟩
         | _ => r
-      else run fuel els st o.2
+      else runG H fuel els st o.2
     | .tryCatch body h =>
-      let r := run fuel body st os
+      let r := runG H fuel body st os
       match r.exit with
-      | .exc => run fuel h r.st r.os
-      | .roExc => run fuel h r.st r.os
+      | .exc => runG H fuel h r.st r.os
+      | .roExc => runG H fuel h r.st r.os
       | _ => r
     | .tryFinally body fin =>
-      let r := run fuel body st os
+      let r := runG H fuel body st os
       match r.exit with
       | .stuck => r
       | _ =>
-        let r2 := run fuel fin r.st r.os
+        let r2 := runG H fuel fin r.st r.os
         match r2.exit with
         | .norm => ⟨r.exit, r2.st, r2.os⟩
         | _ => r2
     | .scope body =>
-      let r := run fuel body st os
+      let r := runG H fuel body st os
       match r.exit with
       | .ret => ⟨.norm, r.st, r.os⟩
       | _ => r
+    | .call f =>
+      -- the child is in place whether it raises or not; the field's content changes iff the child changed
+      let c := H fuel f (st.cur f) os
+      if c.stuck then ⟨.stuck, st, c.os⟩
+      else if c.raised then ⟨.exc, if c.changed then st.mutate f else st, c.os⟩
+      else ⟨.norm, st.mutate f, c.os⟩
+
+/-- The modular interpreter the C11 theorems of the first rounds are about and the driver runs: child calls
+answered by the contract `Handler.shallow` (`call f` then behaves exactly like `mayRaise; mutate f`). -/
+def run (fuel : Nat) (sc : Stmt) (st : St) (os : Outcomes) : Res := runG Handler.shallow fuel sc st os
 
 /-! ## The static discipline
 
@@ -349,6 +386,12 @@ def post (sc : Stmt) (a : Abs) : Post :=
   | .scope body =>
     let p := post body a
     { p with norm := p.norm.union p.ret, ret := [] }
+  | .call f =>
+    -- the contract of a child mutator: raises with the child (hence the field) unchanged, or changes the child
+    { norm := [{ a with clean := a.clean.filter (· ≠ f),
+                        valid := if f ∈ a.fresh then a.valid else a.valid.filter (· ≠ f),
+                        fresh := f :: a.fresh }],
+      exc := [a] }
 
 /-- A mutator script over the fields `fs`. -/
 structure Script where
